@@ -171,6 +171,21 @@ class Ctx:
                     if a is not None and b is not None:
                         g.add(node, ZERO, b - a)
                         g.add(ZERO, node, -(b - a))
+        # halves of  s.split_at(mid)  (the call itself is an obligation mid <= len(s), checked at its own site):
+        # len(.0) == mid, len(.1) == len(s) - mid
+        if c[0] == "field" and c[2] in (0, 1):
+            sp = T.strip(c[1])
+            if sp[0] == "call" and sp[1].endswith("::split_at") and "[T]" in sp[1] and len(sp[2]) == 2:
+                base = ("len", sid(sp[2][0]))
+                n, o = self.lin(sp[2][1], g, depth + 1)
+                if c[2] == 0:
+                    g.add(node, n, o)
+                    g.add(n, node, -o)
+                elif n == ZERO:
+                    g.add(node, base, -o)
+                    g.add(base, node, o)
+                else:
+                    g.add(node, base, 0)
         # chunks_exact(k) item
         if c[0] in ("field", "downcast"):
             for x in T.walk(c):
